@@ -204,5 +204,8 @@ if __name__ == "__main__":
     n = len(eng.obls)
     print("obligations=%d discharged=%d gen=%.1fs total=%.1fs stats=%s" % (
         n, sum(1 for o in eng.obls if o.verdict == "unsat"), tgen, tall, eng.stats))
+    for f in eng.functions:
+        if f.get("unreached_statements"):
+            print("UNREACHED %s%s: lines %s" % (f.get("func"), " @" + str(f["block"])[:50] if f.get("block") else "", f["unreached_statements"]))
     for e in errors:
         print("ERROR", e)
